@@ -47,8 +47,14 @@ type Replay struct {
 	Lim   int     `json:"lim,omitempty"`   // request Limit n > 0 (default 10000): at most n events are delivered
 	Page  int     `json:"page,omitempty"`  // > 0: the result is read in pages of that many events (NextQueryRequest), the pages are concatenated
 	Twice bool    `json:"twice,omitempty"` // the same request is sent a second time: the answer must be the same
+	// Stale: first a request with a wait timeout (its cursor is kept by the server) for SELECT ... WHERE msg contains "#" (true of the first
+	// stored event), Limit 1; then the case's own query under THAT request id and the returned position: the answer must be the filter of
+	// the NEW query over what follows the first event
+	Stale bool `json:"stale,omitempty"`
 	// reltime: clock-dependent ts literals (relative "-1.5h", constants minute/hour/day/week); the events are placed at run time
-	RelLits []string `json:"rellits,omitempty"`
+	// the instants the ts literals of the text denote, computed by the harness (not by the implementation): K and the oracle use them
+	FixedLits map[string]int64 `json:"fixedlits,omitempty"`
+	RelLits   []string         `json:"rellits,omitempty"`
 	RelEvs  []RelEv  `json:"relevs,omitempty"`
 }
 
@@ -633,10 +639,26 @@ func queryCase(st *store, rp Replay) (*Case, error) {
 	if rp.Page > 0 {
 		q += fmt.Sprintf(" [read in pages of %d]", rp.Page)
 	}
+	stale := rp.Stale && perr == nil && len(rp.Range) == 0 && tail == 0 && rp.Off == 0 && rp.Lim == 0 && rp.Page == 0 && len(unf) > 0 &&
+		len(unf) == len(rp.Events) && strings.Contains(rp.Events[unf[0]].Msg, "#")
+	var staleId uint64
+	stalePos := ""
+	if stale {
+		r0, err := st.srv.Querier.Query(context.Background(), &api.QueryRequest{Query: "SELECT FROM {" + tags + "} WHERE msg contains \"#\" LIMIT 10000", Limit: 1, WaitTimeout: 1})
+		if (err != nil && err != io.EOF) || r0 == nil || len(r0.Events) != 1 {
+			stale = false // the preparing request did not deliver the first event (another defect's business): the plain query is asked
+		} else {
+			staleId, stalePos = r0.NextQueryRequest.ReqId, r0.NextQueryRequest.Pos
+			q += fmt.Sprintf(" [request: ReqId of a kept cursor for WHERE msg contains \"#\", Pos=%s]", stalePos)
+		}
+	}
 	var res *api.QueryResult
 	var qerr error
 	ask := func() (*api.QueryResult, error) {
 		req := &api.QueryRequest{Query: stmt, Limit: 10000}
+		if stale {
+			req.ReqId, req.Pos = staleId, stalePos
+		}
 		if tail > 0 {
 			req.Pos, req.Offset = "tail", -tail
 		}
@@ -719,7 +741,10 @@ func queryCase(st *store, rp Replay) (*Case, error) {
 			// exactly those events of the unfiltered result (same partition, no WHERE, no RANGE) for which the
 			// expression is true, in that order -- whatever their timestamps are
 			var want []int
-			for _, i := range unf {
+			for n, i := range unf {
+				if stale && n == 0 {
+					continue // the kept cursor delivered the first event; the position stands behind it
+				}
 				if len(rp.Range) == 2 && (rp.Events[i].Ts < rp.Range[0] || rp.Events[i].Ts > rp.Range[1]) {
 					continue
 				}
@@ -816,6 +841,10 @@ func queryCase(st *store, rp Replay) (*Case, error) {
 	}
 	if rp.Page > 0 {
 		cs.Tags = append(cs.Tags, "query:paged")
+	}
+	if stale {
+		cs.Coq = GApp("KQuery", GStr(rp.Text), tab, gEvents(rp.Events[1:]), ret)
+		cs.Tags = append(cs.Tags, "query:on-kept-cursor-of-another-query")
 	}
 	if rp.Twice {
 		cs.Tags = append(cs.Tags, "query:twice")
@@ -976,6 +1005,15 @@ func main() {
 			case "where":
 				if len(rp.RelLits) > 0 {
 					cs, err = relCase(rp)
+				} else if len(rp.FixedLits) > 0 {
+					cs, err = whereCaseT(rp, rp.FixedLits)
+					if err == nil && cs != nil && cs.Oracle == nil {
+						for l, want := range rp.FixedLits {
+							if got, ok := parseTime(l); !ok || got != want {
+								cs.Oracle = &Violation{Class: "ts-literal-value-differs", Detail: fmt.Sprintf("the literal %q denotes %s, parseLqlDateTime says %s (ok=%v)", l, time.Unix(0, want).UTC().Format(time.RFC3339), time.Unix(0, got).UTC().Format(time.RFC3339), ok)}
+							}
+						}
+					}
 				} else {
 					cs, err = whereCase(rp)
 				}
@@ -1047,6 +1085,12 @@ func main() {
 			}
 		}
 		c.Note("edge corpus", fmt.Sprintf("%d where cases, %d queries", len(ew), len(eq)))
+		// ---- 12-hour literals (AM/PM): the instant is computed here; events between the 12-hour and the 24-hour reading
+		for _, rp := range ampmCases() {
+			if err := run(rp); err != nil {
+				return err
+			}
+		}
 		// ---- reltime: ts literals that depend on the clock (relative -<n>(m|h|d), constants minute/hour/day/week)
 		nrel := 0
 		for _, rp := range relCases() {
@@ -1183,6 +1227,7 @@ func main() {
 				rp.Page = r.PickInt(1, 2, 3, 7)
 			}
 			rp.Twice = r.Chance(1, 6)
+			rp.Stale = !rp.Twice && r.Chance(1, 6)
 			if err := run(rp); err != nil {
 				return err
 			}
